@@ -282,4 +282,4 @@ def callstack_strategy():
 
 def run(ctx):
     ctx.run_given('callstack_history', callstack_strategy(), prop_callstack_history, ctx.n(300, 1500))
-    ctx.run_given('history', strategy(), prop_history, ctx.n(500, 2500))
+    ctx.run_given('history', strategy(), prop_history, ctx.n(500, 1800))
